@@ -127,6 +127,10 @@ class World:
                     bi = bi * (1 + Decimal(rng.randint(0, 5000)) / 10**9)
                 ls.append(li)
                 bs.append(bi)
+                if index_mode == "frozen" and rows and i % 9:
+                    # the reserve is not touched on chain: the whole row (rates and indices) repeats, only prices move
+                    rows.append(dict(rows[-1]))
+                    continue
                 rows.append({
                     "liquidity_rate": Decimal(rng.randint(0, 8000)) / 100000, "stable_borrow_rate": Decimal("0.05"),
                     "variable_borrow_rate": Decimal(rng.randint(0, 12000)) / 100000, "liquidity_index": li,
@@ -430,7 +434,7 @@ def frozen_case(mon, rng, c):
     ntok = rng.choice([2, 3, 3, 4, 5])
     toks = rng.sample(TOKENS, ntok)
     nbars = rng.randint(3, 8)
-    index_mode = rng.choice(["jumpy", "jumpy", "slow", "distinct", "equal", "one", "erode"])
+    index_mode = rng.choice(["jumpy", "jumpy", "slow", "distinct", "equal", "one", "erode", "frozen", "frozen"])
     if index_mode == "erode":
         nbars = rng.randint(5, 12)
     wd = World(rng, nbars, toks, index_mode, all_flags=rng.random() < 0.6)
@@ -623,7 +627,7 @@ def actuator_case(mon, rng, c):
     ntok = rng.choice([2, 3, 4])
     toks = rng.sample(TOKENS, ntok)
     nbars = rng.randint(5, 10)
-    index_mode = rng.choice(["jumpy", "slow", "distinct", "erode"])
+    index_mode = rng.choice(["jumpy", "slow", "distinct", "erode", "frozen"])
     wd = World(rng, nbars, toks, index_mode, all_flags=rng.random() < 0.6)
     borrowable = [nm for nm in wd.names if wd.can_borrow[nm]]
     low = rng.choice(borrowable) if rng.random() < 0.3 else None
